@@ -32,6 +32,7 @@ TAcquire ==
            b     == [lo |-> Ev.off, hi |-> Ev.off + Ev.cap] IN
        IF Ev.rc = 0
        THEN /\ 0 <= b.lo /\ b.lo < b.hi /\ b.hi <= N                       \* inside the ring
+            /\ Ev.rem = 0                                                    \* (scaled rings: whole units)
             /\ \A i \in 1 .. Len(rest) : Disj(b, rest[i])                    \* overlaps nothing outstanding
             /\ IF Ev.form = "exact" THEN Ev.cap = Ev.n
                ELSE Ev.min <= Ev.cap /\ Ev.cap <= Ev.n                       \* size exact / within [min, n]
